@@ -1,14 +1,18 @@
 """C31 - File imports store every data row of the uploaded file.
 
-Proof: coq/theories/Import.  Model of importCSV after encoding/csv (skip rows, BOM, header
-validation, ragged rows, the int -> float -> bool -> string inference with lazy buffers, time
-conversion with Go's wrapping int64 multiplication) and of the per-type Parquet cell
-conversions.  Theorems for all inputs: C31_rows, C31_lossless_int/bool/string/float,
-C31_time_exact, C31_auto_exact, C31_all_or_nothing, C31_stored_lossless_guarded; refuted at
-full strength: C31_time_overflow_refuted, C31_underscore_column_refuted, C31_long_row_refuted,
-C31_parquet_uint64_refuted, C31_arrow_ts_overflow_refuted.
+Proof: coq/theories/Import (model of the code after fix b90d6d7).  Model of importCSV after
+encoding/csv (skip rows, BOM, header validation, ragged rows, the int -> float -> bool -> string
+inference with lazy buffers, time conversion: checked multiplication for explicit units,
+magnitude detection) and of importParquet with its per-type cell conversions.  Theorems for all
+inputs: C31_rows, C31_lossless_int/bool/string/float, C31_column_sound, C31_time_checked,
+C31_auto_exact, C31_accepted_times_exact, C31_time_overflow_rejected,
+C31_overflow_witness_rejected, C31_all_or_nothing, C31_stored_lossless_guarded,
+C31_parquet_int_lossless, C31_arrow_ts_checked, C31_arrow_ts_column_exact; still refuted at full
+strength: C31_underscore_column_refuted, C31_long_row_refuted, C31_parquet_uint64_refuted,
+C31_arrow_ts_column_overflow_refuted.
 Tie 1 (translator): thresholds and multipliers of autoIntEpochToMicros / intTimeToMicros /
-arrowTimestampToMicros are re-extracted from the source into coq/gen/Params_Import.v.
+arrowTimestampToMicros and of their checked variants are re-extracted from the source into
+coq/gen/Params_Import.v.
 Tie 2 (correspondence): the real importCSV / importParquet run in-package with a real
 ArrowBuffer and a temporary backend; the stored Parquet files are read back and compared with
 the model inside Coq; the property oracle is evaluated on the implementation's output.
@@ -27,11 +31,12 @@ AREA = "Import"
 P = "Arc.Import.Props"
 O = "Arc.Import.Obligations"
 THEOREMS = [(P, "C31_rows"), (P, "C31_lossless_int"), (P, "C31_lossless_bool"), (P, "C31_lossless_string"),
-            (P, "C31_lossless_float"), (P, "C31_column_sound"), (P, "C31_time_exact"), (P, "C31_auto_exact"),
-            (P, "C31_time_overflow_refuted"), (P, "C31_all_or_nothing"), (P, "C31_stored_lossless_guarded"),
+            (P, "C31_lossless_float"), (P, "C31_column_sound"), (P, "C31_time_checked"), (P, "C31_auto_exact"),
+            (P, "C31_accepted_times_exact"), (P, "C31_time_overflow_rejected"), (P, "C31_overflow_witness_rejected"),
+            (P, "C31_all_or_nothing"), (P, "C31_stored_lossless_guarded"),
             (P, "C31_underscore_column_refuted"), (P, "C31_long_row_refuted"),
             (P, "C31_parquet_int_lossless"), (P, "C31_parquet_uint64_refuted"),
-            (P, "C31_arrow_ts_exact"), (P, "C31_arrow_ts_overflow_refuted"),
+            (P, "C31_arrow_ts_checked"), (P, "C31_arrow_ts_column_exact"), (P, "C31_arrow_ts_column_overflow_refuted"),
             (O, "C31_params_good"), (O, "C31_deployed_auto_exact")]
 MODULES = [P, O]
 TIE_NAME = ("C31 correspondence (api.importCSV / importParquet + ingest.ArrowBuffer vs Arc.Import.Model.import_csv / "
@@ -39,7 +44,7 @@ TIE_NAME = ("C31 correspondence (api.importCSV / importParquet + ingest.ArrowBuf
 SRC = "internal/api/import_inprocess.go"
 HARNESS = {"internal/api/zz_import_verif_test.go": "harness/import/import_verif_test.go"}
 FMT = {"": "Auto", "epoch_s": "EpochS", "epoch_ms": "EpochMs", "epoch_us": "EpochUs", "epoch_ns": "EpochNs"}
-FINDINGS = {"integer-epoch-time-overflows-int64-micros": "int_time_overflows",
+FINDINGS = {"parquet-non-time-timestamp-column-overflows-int64-micros": "pq_tscol_overflows",
             "column-name-starting-with-underscore": "has_underscore_column",
             "data-row-longer-than-header": "has_long_row",
             "parquet-uint64-above-maxint64": "pq_has_big_uint64"}
@@ -85,18 +90,45 @@ def translate_params():
     if [r[0] for r in rets] != ["*", "*", "/"]:
         raise vlib.TieBroken("autoIntEpochToMicros: expected returns n*K, n*K, n, n/K; found %r" % (rets,))
     items = [("thr_s", SRC, "int64(%s)" % thr[0]), ("thr_ms", SRC, "int64(%s)" % thr[1]), ("thr_us", SRC, "int64(%s)" % thr[2]),
-             ("mul_s", SRC, "int64(%s)" % rets[0][1]), ("mul_ms", SRC, "int64(%s)" % rets[1][1]), ("div_ns", SRC, "int64(%s)" % rets[2][1]),
-             ("f_mul_s", SRC, "int64(%s)" % one(r'case "epoch_s":\s*return n \* ([0-9_]+)', itm, "intTimeToMicros epoch_s")),
-             ("f_mul_ms", SRC, "int64(%s)" % one(r'case "epoch_ms":\s*return n \* ([0-9_]+)', itm, "intTimeToMicros epoch_ms")),
-             ("f_div_ns", SRC, "int64(%s)" % one(r'case "epoch_ns":\s*return n / ([0-9_]+)', itm, "intTimeToMicros epoch_ns")),
-             ("a_mul_s", SRC, "int64(%s)" % one(r'case arrow\.Second:\s*return v \* ([0-9_]+)', ats, "arrowTimestampToMicros Second")),
-             ("a_mul_ms", SRC, "int64(%s)" % one(r'case arrow\.Millisecond:\s*return v \* ([0-9_]+)', ats, "arrowTimestampToMicros Millisecond")),
-             ("a_div_ns", SRC, "int64(%s)" % one(r'case arrow\.Nanosecond:\s*return v / ([0-9_]+)', ats, "arrowTimestampToMicros Nanosecond"))]
-    one(r'case "epoch_us":\s*return (n)\n', itm, "intTimeToMicros epoch_us")
+             ("mul_s", SRC, "int64(%s)" % rets[0][1]), ("mul_ms", SRC, "int64(%s)" % rets[1][1]), ("div_ns", SRC, "int64(%s)" % rets[2][1])]
+    # the explicit-unit and Arrow conversions must use the same constants; a shape that can no
+    # longer be read is recorded as a failed obligation (the correspondence then searches for a
+    # concrete failing input) rather than stopping the run
+    mismatch = []
+    try:
+        itc = func_body(text, "intTimeToMicrosChecked")
+        atc = func_body(text, "arrowTimestampToMicrosChecked")
+        func_body(text, "mulMicrosChecked")
+    except vlib.TieBroken as e:
+        itc = atc = ""
+        mismatch.append("overflow-checked conversions of fix b90d6d7 not found: %s" % e)
+    for label, body_, pat, what in (
+            ("c_mul_s", itc, r'case "epoch_s":\s*return mulMicrosChecked\(n, ([0-9_]+)\)\n', "intTimeToMicrosChecked epoch_s"),
+            ("c_mul_ms", itc, r'case "epoch_ms":\s*return mulMicrosChecked\(n, ([0-9_]+)\)\n', "intTimeToMicrosChecked epoch_ms"),
+            ("ac_mul_s", atc, r'case arrow\.Second:\s*return mulMicrosChecked\(v, ([0-9_]+)\)\n', "arrowTimestampToMicrosChecked Second"),
+            ("ac_mul_ms", atc, r'case arrow\.Millisecond:\s*return mulMicrosChecked\(v, ([0-9_]+)\)\n', "arrowTimestampToMicrosChecked Millisecond"),
+            ("f_mul_s", itm, r'case "epoch_s":\s*return n \* ([0-9_]+)\n', "intTimeToMicros epoch_s"),
+            ("f_mul_ms", itm, r'case "epoch_ms":\s*return n \* ([0-9_]+)\n', "intTimeToMicros epoch_ms"),
+            ("f_div_ns", itm, r'case "epoch_ns":\s*return n / ([0-9_]+)\n', "intTimeToMicros epoch_ns"),
+            ("f_us", itm, r'case "epoch_us":\s*return (n)\n', "intTimeToMicros epoch_us"),
+            ("a_mul_s", ats, r'case arrow\.Second:\s*return v \* ([0-9_]+)\n', "arrowTimestampToMicros Second"),
+            ("a_mul_ms", ats, r'case arrow\.Millisecond:\s*return v \* ([0-9_]+)\n', "arrowTimestampToMicros Millisecond"),
+            ("a_div_ns", ats, r'case arrow\.Nanosecond:\s*return v / ([0-9_]+)\n', "arrowTimestampToMicros Nanosecond"),
+            ("a_us", ats, r'case arrow\.Microsecond:\s*return (v)\n', "arrowTimestampToMicros Microsecond")):
+        if not body_:
+            continue
+        try:
+            lit = one(pat, body_, what)
+        except vlib.TieBroken as e:
+            mismatch.append(str(e))
+            continue
+        if label not in ("f_us", "a_us"):
+            items.append((label, SRC, "int64(%s)" % lit))
     v = vlib.go_eval_consts(items)
-    mismatch = ["%s=%d (autoIntEpochToMicros) vs %s=%d" % (a, v[a], b, v[b])
-                for a, b in (("mul_s", "f_mul_s"), ("mul_ms", "f_mul_ms"), ("div_ns", "f_div_ns"), ("mul_s", "a_mul_s"), ("mul_ms", "a_mul_ms"), ("div_ns", "a_div_ns"))
-                if v[a] != v[b]]
+    mismatch += ["%s=%d (autoIntEpochToMicros) vs %s=%d" % (a, v[a], b, v[b])
+                 for a, b in (("mul_s", "f_mul_s"), ("mul_ms", "f_mul_ms"), ("div_ns", "f_div_ns"), ("mul_s", "a_mul_s"), ("mul_ms", "a_mul_ms"), ("div_ns", "a_div_ns"),
+                              ("mul_s", "c_mul_s"), ("mul_ms", "c_mul_ms"), ("mul_s", "ac_mul_s"), ("mul_ms", "ac_mul_ms"))
+                 if b in v and v[a] != v[b]]
     body = "(* GENERATED by tools/props/C31.py from the current /repo sources - do not edit *)\n"
     body += "From Coq Require Import ZArith.\nFrom Arc Require Import Import.Model.\nOpen Scope Z_scope.\n"
     body += ("Definition import_params : tparams :=\n  {| thr_s := %d; thr_ms := %d; thr_us := %d; mul_s := %d; mul_ms := %d; div_ns := %d |}.\n"
@@ -330,7 +362,7 @@ def pq_values(rng, typ, n, nulls=0.22):
 
 def gen_pq(rng, cid):
     mode = rng.choice(["ok"] * 16 + ["time_null", "bad_time_type", "missing_time", "collision", "unsupported_col", "underscore",
-                                     "biguint", "overflow", "unsupported_fmt", "norows", "time_nan"])
+                                     "biguint", "overflow", "tscol_overflow", "unsupported_fmt", "norows", "time_nan"])
     n = rng.randint(2, 8)
     if mode == "norows":
         n = 0
@@ -374,6 +406,10 @@ def gen_pq(rng, cid):
         cols[0]["name"] = "_" + cols[0]["name"]
     elif mode == "biguint":
         cols.append({"name": "big", "type": "uint64", "values": [str(rng.choice([2 ** 63, 2 ** 63 + 5, 2 ** 64 - 1])) if i == 0 or rng.random() < 0.5 else "7" for i in range(n)]})
+    elif mode == "tscol_overflow" and n:
+        unit = rng.choice(["ts_s", "ts_ms"])
+        big = 9223372036855 if unit == "ts_s" else 9223372036854776
+        cols.append({"name": "seen", "type": unit, "values": [str(rng.choice([big, -big])) if i == 0 else str(1_700_000_000 + i) for i in range(n)]})
     elif mode == "overflow" and n:
         ttype, fmt = rng.choice([("ts_s", ""), ("ts_ms", ""), ("int64", "epoch_s"), ("int64", "epoch_ms")])
         big = 9223372036855 if (ttype == "ts_s" or fmt == "epoch_s") else 9223372036854776
@@ -398,9 +434,13 @@ def pq_witness_cases():
     return [{"id": "witness-pq-uint64", "kind": "parquet", "mode": "witness", "witness": "parquet-uint64-above-maxint64", "data": "",
              "time_column": "time", "time_format": "", "delimiter": "", "skip_rows": 0,
              "pq": [col("time", "ts_us", ["1700000000000000"]), col("big", "uint64", ["9223372036854775813"])]},
-            {"id": "witness-pq-ts-overflow", "kind": "parquet", "mode": "witness", "witness": "integer-epoch-time-overflows-int64-micros", "data": "",
+            {"id": "regression-pq-ts-overflow", "kind": "parquet", "mode": "regression", "data": "",     # rejected since b90d6d7
              "time_column": "time", "time_format": "", "delimiter": "", "skip_rows": 0,
-             "pq": [col("time", "ts_s", ["9223372036855"]), col("v", "int64", ["1"])]}]
+             "pq": [col("time", "ts_s", ["9223372036855"]), col("v", "int64", ["1"])]},
+            {"id": "witness-pq-tscol-overflow", "kind": "parquet", "mode": "witness",
+             "witness": "parquet-non-time-timestamp-column-overflows-int64-micros", "data": "",
+             "time_column": "time", "time_format": "", "delimiter": "", "skip_rows": 0,
+             "pq": [col("time", "ts_us", ["1700000000000000"]), col("seen", "ts_s", ["9223372036855"])]}]
 
 
 def pqcol_to_coq(c, widen=True):
@@ -451,7 +491,7 @@ def pqcase_to_coq(c):
 
 
 PQ_PREDS = {"agree": "pqcase_agrees", "oracle": "pqcase_oracle", "underscore": "(fun c => negb (pq_has_underscore c))",
-            "biguint": "(fun c => negb (pq_has_big_uint64 c))", "overflow": "(fun c => negb (pq_time_overflows c))"}
+            "biguint": "(fun c => negb (pq_has_big_uint64 c))", "tscol": "(fun c => negb (pq_tscol_overflows c))"}
 
 
 def witness_cases():
@@ -460,7 +500,10 @@ def witness_cases():
              "time_column": "time", "time_format": "", "delimiter": ",", "skip_rows": 0}
         d.update(kw)
         return d
-    return [c("witness-overflow", "time,v\n9223372036855,1\n", "integer-epoch-time-overflows-int64-micros", time_format="epoch_s"),
+    reg = c("regression-overflow", "time,v\n9223372036855,1\n", None, time_format="epoch_s")   # rejected since b90d6d7
+    reg["mode"] = "regression"
+    del reg["witness"]
+    return [reg,
             c("witness-underscore", "time,_hidden,v\n1700000000,5,6\n", "column-name-starting-with-underscore"),
             c("witness-longrow", "time,v\n1700000000,5,EXTRA\n1700000001,6\n", "data-row-longer-than-header")]
 
@@ -574,7 +617,7 @@ def case_to_coq(c):
 HEADER = ("From Coq Require Import List ZArith Bool NArith.\nFrom Arc Require Import Import.Model.\n"
           "From ArcGen Require Import Params_Import.\nImport ListNotations.\nOpen Scope Z_scope.\n")
 PREDS = {"agree": "case_agrees", "oracle": "case_oracle", "underscore": "(fun c => negb (has_underscore_column c))",
-         "longrow": "(fun c => negb (has_long_row c))", "overflow": "(fun c => negb (int_time_overflows c))"}
+         "longrow": "(fun c => negb (has_long_row c))"}
 
 
 def eval_coq(cases, name, workers=6):
@@ -594,7 +637,7 @@ def eval_coq(cases, name, workers=6):
         kind, typ, preds, idx, terms, off = job
         r = vlib.coq_check_cases("C31", HEADER, typ, terms, preds, chunk=len(terms), name="%s_%s_%d" % (name, kind, off))
         return {k: [idx[x] for x in v] for k, v in r.items()}
-    res = {k: [] for k in list(PREDS) + ["biguint"]}
+    res = {k: [] for k in list(PREDS) + ["biguint", "tscol"]}
     with ThreadPoolExecutor(max_workers=workers) as ex:
         for r in ex.map(one, jobs):
             for k, v in r.items():
@@ -681,7 +724,7 @@ def run(res, tier, seed):
         "HTTP multipart layer (handleCSVImport/handleParquetImport: size limit, form file) is not modelled; importCSV/importParquet are called in-package",
     ]
 
-    n, m = (330, 130) if tier == "quick" else (6000, 2500)
+    n, m = (280, 110) if tier == "quick" else (6000, 2500)
     t1 = time.time()
     fixed = witness_cases() + pq_witness_cases() + corpus_cases()
     cases = fixed + [gen_csv(rng, i) for i in range(n)] + [gen_pq(rng, n + i) for i in range(m)]
@@ -693,7 +736,7 @@ def run(res, tier, seed):
     known = {e["signature"]: e for e in vlib.known_for("C31")}
     dis = set(ev["agree"])
     orf = set(ev["oracle"])
-    cls = {"integer-epoch-time-overflows-int64-micros": set(ev["overflow"]),
+    cls = {"parquet-non-time-timestamp-column-overflows-int64-micros": set(ev["tscol"]),
            "column-name-starting-with-underscore": set(ev["underscore"]),
            "data-row-longer-than-header": set(ev["longrow"]),
            "parquet-uint64-above-maxint64": set(ev["biguint"])}
